@@ -1,6 +1,7 @@
 /- helper lemmas and the proofs behind WD.Props.C04 (C04 and C05) -/
 import WD.Model.Observer
 import WD.Spec.ObserverSpec
+import WD.Proofs.Observer.Inv1
 namespace WD.ProofsObs
 open WD WD.Obs
 
@@ -9,20 +10,20 @@ variable (clients : List (List Op)) (cbs : List (Hid × List (List Op))) (emit :
 
 theorem routing (p q : List Obs) (h : Hid) (w : Wid) (v u : Nat)
     (hh : (run (init clients cbs emit) sched).hist = p ++ .call h w v u :: q) : registered p h w = true := by
-  sorry
+  exact ((inv1_reach clients cbs emit sched).good p _ q hh).1
 
 theorem handlers_eq_registered (h : Hid) (w : Wid) :
     (h ∈ (run (init clients cbs emit) sched).handlersOf w) ↔
       registered (run (init clients cbs emit) sched).hist h w = true := by
-  sorry
+  exact (inv1_reach clients cbs emit sched).reg h w
 
 theorem dispatched_was_queued (p q : List Obs) (h : Hid) (w : Wid) (v u : Nat)
     (hh : (run (init clients cbs emit) sched).hist = p ++ .call h w v u :: q) : Obs.enq w v u ∈ p := by
-  sorry
+  exact ((inv1_reach clients cbs emit sched).good p _ q hh).2
 
 theorem enq_uids_increasing :
     (enqUids (run (init clients cbs emit) sched).hist).Pairwise (· < ·) := by
-  sorry
+  exact good1_enq_pairwise (inv1_reach clients cbs emit sched).good
 
 theorem order_at_most_once (h : Hid) :
     (callUids h (run (init clients cbs emit) sched).hist).Pairwise (· < ·) := by
@@ -31,7 +32,7 @@ theorem order_at_most_once (h : Hid) :
 theorem dispatch_copy (p q : List Obs) (u : Nat) (w : Wid) (hs : List Hid)
     (hh : (run (init clients cbs emit) sched).hist = p ++ .dispatch u w hs :: q) (h : Hid) :
     h ∈ hs ↔ registered p h w = true := by
-  sorry
+  exact (inv1_reach clients cbs emit sched).good p _ q hh h
 
 theorem complete (p q r : List Obs) (u : Nat) (w : Wid) (hs : List Hid)
     (hh : (run (init clients cbs emit) sched).hist = p ++ .dispatch u w hs :: q ++ .dispatchEnd u :: r)
@@ -41,7 +42,7 @@ theorem complete (p q r : List Obs) (u : Nat) (w : Wid) (hs : List Hid)
 theorem skip_unregistered (p q : List Obs) (h : Hid) (u : Nat)
     (hh : (run (init clients cbs emit) sched).hist = p ++ .skip h u :: q) :
     ∃ w hs, Obs.dispatch u w hs ∈ p ∧ registered p h w = false := by
-  sorry
+  exact (inv1_reach clients cbs emit sched).good p _ q hh
 
 theorem unregistered_on_return (p q : List Obs) (op : Op) (h : Hid) (w : Wid)
     (hh : (run (init clients cbs emit) sched).hist = p ++ .did op "ok" :: q) (hr : removes op h w = true) :
@@ -56,6 +57,6 @@ theorem nothing_after_return (p q r : List Obs) (op : Op) (h : Hid) (w : Wid) (v
 theorem unschedule_joins_emitter (s : State) (ti : Nat) (t : Thread) (w : Wid) (e : Eid) (o : EmObj) (ei : Nat)
     (ht : s.thread? ti = some t) (hpc : t.pc = .unschedJoin w e) (he : s.em? e = some o) (hti : o.tidx = some ei)
     (hen : enabled s ti = true) : s.threadDone ei = true := by
-  sorry
+  simpa [enabled, ht, hpc, he, hti] using hen
 
 end WD.ProofsObs
